@@ -18,6 +18,9 @@ def main():
         if a.prop in ('C01', 'C02', 'C03', 'C04', 'C05', 'C06', 'C07', 'C08', 'C09', 'C19'):
             from . import mapper_run
             rc = mapper_run.check(a.prop, a.tier, seed)
+        elif a.prop == 'C13':
+            from . import convcheck
+            rc = convcheck.check_c13(a.tier, seed)
         elif a.prop == 'C15':
             from . import convcheck
             rc = convcheck.check_c15(a.tier, seed)
